@@ -208,6 +208,8 @@ def train(tier: str, prop: str) -> list[dict]:
         c("SAC", "pendulum", 1, 2, "progress", [11], starts=4),
         c("A2C", "cartpole", 2, 5, "video", [31], video_interval=2),
         c("PPO", "sim_box", 1, 10, "clock", [35]),
+        c("PPO", "gym_peer", 1, 6, "rec1", [24]),      # Gymnasium peer with hidden RNG state behind GymToLeraxEnv
+        c("DQN", "gym_peer", 1, 3, "rec1", [15], starts=4),
     ]
     if prop == "C10":
         base = [b for b in base if b["observer"] in ("rec1", "rec2", "list", "console", "tb", "clock", "video")]
@@ -293,7 +295,17 @@ def rollout(tier: str, prop: str) -> list[dict]:
 
 def g1(tier: str, prop: str) -> list[dict]:
     clock = [dict(mode="clock", n=200000), dict(mode="clock", n=1000000)]
+    # Every configured range is DISJOINT from the library default, so a range that is not passed through to the
+    # randomiser / sampler (and silently falls back to a default) cannot hide inside a superset.
+    shifted = {"friction_range": [1.2, 1.5], "friction_loss_scale_range": [2.5, 3.0], "armature_scale_range": [1.1, 1.2],
+               "mass_scale_range": [1.2, 1.3], "torso_offset_range": [3.0, 4.0]}
+    loco = dict(shifted, lin_vel_x_range=[1.5, 2.0], lin_vel_y_range=[0.6, 0.8], ang_vel_yaw_range=[1.2, 1.5], gait_frequency_range=[2.0, 2.5])
     tasks = [
+        dict(mode="task", env="G1Locomotion", K=8, L=20, kwargs=loco),
+        dict(mode="task", env="G1Standing", K=8, L=16, kwargs=shifted),
+        dict(mode="task", env="G1Standup", K=8, L=16, kwargs=shifted),
+    ]
+    defaults = [
         dict(mode="task", env="G1Locomotion", K=8, L=20),
         dict(mode="task", env="G1Standing", K=8, L=16),
         dict(mode="task", env="G1Standup", K=8, L=16),
@@ -307,4 +319,4 @@ def g1(tier: str, prop: str) -> list[dict]:
         dict(mode="task", env="G1Standing", K=16, L=30, kwargs={"friction_range": [0.1, 2.0], "mass_scale_range": [0.5, 1.5]}),
         dict(mode="task", env="G1Standup", K=16, L=30, kwargs={"torso_offset_range": [-2.0, 2.0]}),
     ]
-    return clock + tasks + swarm
+    return clock + tasks + defaults + swarm
